@@ -535,6 +535,7 @@ func main() {
 			}
 		}
 	}
+	r.Set("element_type_states", allTypedSets(r))
 	bigSets(r)
 	churnSets(r)
 	r.Sample(map[string]any{"A": "sync2.Set[0 2] via [Add(0) Add(1) Len Remove(1) Add(2)]", "B": "maps.Set[1 2]", "ops": "Union Intersect SetDiff SymDiff AddSet RemoveSet CartesianProduct"})
@@ -543,7 +544,7 @@ func main() {
 	r.Set("traces_validated_against_impl", int64(trans)+e.Calls)
 	r.Set("construction_states", states)
 	r.Set("operand_pairs", e.Inputs)
-	r.Set("rule", "(1) explicit-state BFS to fixpoint over the construction histories Add/Remove/Has(incl. misses)/Len/Clone of sync2.Set and maps.Set on {0,1,2}, started from the empty set and from the result of every NewSetFromSlice/NewSetFromKeys/NewSetFromValues call over that universe: state = fingerprint of the complete concrete layout (read map, dirty map, amended flag, miss counter, nil/expunged/live entries), every observer compared with a membership model in every state, Clone independence both ways; (2) every ordered pair of operand layouts (quick: one representative per membership x history class; thorough: all layouts) in all four implementation pairings plus the same object as both operands, through Union/Intersect/SetDiff/SymDiff/AddSet/RemoveSet/CartesianProduct with operand-unchanged and detachment checks; (3) NewSetFrom* on all slices of length <= 4 and all maps PLUS deterministic families beyond the exhaustive bound (large sizes, every single/double removal from trees built in 7 orders, long one-instance churn histories): see the *_family_* counters")
+	r.Set("rule", "(1) explicit-state BFS to fixpoint over the construction histories Add/Remove/Has(incl. misses)/Len/Clone of sync2.Set and maps.Set on {0,1,2}, started from the empty set and from the result of every NewSetFromSlice/NewSetFromKeys/NewSetFromValues call over that universe: state = fingerprint of the complete concrete layout (read map, dirty map, amended flag, miss counter, nil/expunged/live entries), every observer compared with a membership model in every state, Clone independence both ways; (2) every ordered pair of operand layouts (quick: one representative per membership x history class; thorough: all layouts) in all four implementation pairings plus the same object as both operands, through Union/Intersect/SetDiff/SymDiff/AddSet/RemoveSet/CartesianProduct with operand-unchanged and detachment checks; (2b) the same construction search and algebra over 8 element types whose values have several ==-equal spellings (+0.0/-0.0, equal strings in different memory, interfaces/structs/arrays of them), pointers and int8; (3) NewSetFrom* on all slices of length <= 4 and all maps PLUS deterministic families beyond the exhaustive bound (large sizes, every single/double removal from trees built in 7 orders, long one-instance churn histories): see the *_family_* counters")
 	r.Finish()
 }
 
